@@ -31,6 +31,44 @@ def prove_eq(st, e):
     return None, f"residual {st.reduce(e)}"
 
 
+def prove_eq_cases(it, st, e):
+    """prove_eq, with case analysis on min/max atoms occurring in the residual: PROVED if every
+    feasible case proves, REFUTED if some feasible case refutes"""
+    r = prove_eq(st, e)
+    if r[0] is not None or it is None:
+        return r
+    res = st.reduce(e)
+    syms = st.symbols()
+    # min/max atoms that are tied (through an equality) to a symbol of the residual
+    atoms = []
+    for k in it.minmax:
+        if k in res.t:
+            atoms.append(k)
+        elif k in syms:
+            rk = st.reduce(Lin.sym(k))
+            if set(rk.t) & set(res.t):
+                atoms.append(k)
+    if not atoms:
+        return r
+    k = atoms[0]
+    kind, a, b = it.minmax[k]
+    A, B, K = Lin.sym(a), Lin.sym(b), Lin.sym(k)
+    verdicts = []
+    for pick, other in ((A, B), (B, A)):
+        s2 = st.copy()
+        s2.add_eq(K - pick)
+        s2.add_ineq((other - pick) if kind == "min" else (pick - other))
+        if s2.bottom or s2.infeasible():
+            continue
+        verdicts.append(prove_eq(s2, e))
+    if verdicts and all(v[0] is True for v in verdicts):
+        return True, "entailed in every case of " + kind
+    bad = [v for v in verdicts if v[0] is False]
+    if bad:
+        return False, f"in a feasible case of the {kind}(...) {bad[0][1]}"
+    return r
+
+
 def prove_ge(st, e):
     """e >= 0 ?"""
     if st.entails_ineq(e):
